@@ -3,6 +3,7 @@ import LyModel.Merge.LemmasDestruct
 import LyModel.Merge.LemmasDupSibs
 import LyModel.Merge.LemmasCanon
 import LyModel.Merge.LemmasParents
+import LyModel.Merge.LemmasFlags2
 /-!
 # C14 — merging and duplicating trees preserve content (property theorems)
 
@@ -211,6 +212,23 @@ theorem merge_result_canon_fixpoint (S : Schema) (o : MergeOpts) (t s : List DNo
     (hs : wfForest S s = true) (fuel : Nat) : canon S fuel (merge S o t s) = merge S o t s := by
   obtain ⟨_, h2, h3⟩ := merge_result_canonical S o t s ht hs
   exact canon_id S fuel _ h2 h3
+
+/-- **merge_result_wf**: well-formed trees are closed under merging — besides shape, order and uniqueness also the
+consistency of the default flags is kept: `lyd_np_cont_dflt_del` clears the flags of the ancestors whenever a non-default
+node is linked or a leaf becomes explicit, `lyd_np_cont_dflt_set` sets them only when every child is a default node
+(`LemmasFlags`: the invariant along the whole chain of target ancestors).  So every theorem of this file applies again
+to the result of a merge. -/
+theorem merge_result_wf (S : Schema) (o : MergeOpts) (t s : List DNode) (ht : wfForest S t = true)
+    (hs : wfForest S s = true) : wfForest S (merge S o t s) = true := by
+  obtain ⟨c1, c2, c3⟩ := merge_result_canonical S o t s ht hs
+  obtain ⟨t1, t2, _, t4, t5⟩ := wfSibs_parts ht
+  obtain ⟨s1, _, _, s4, s5⟩ := wfSibs_parts hs
+  have hfi := fi_mergeKids S o s [] false { cur := t } s4 s1 t1
+    ⟨t4, by simp, by simp [chainOkF], rfl⟩
+  have hkeys := (level_mergeKids S o [] (fun sid => !S.isKey sid) s false { cur := t }
+    (sidSorted_of_okPair S t t2) (fun c hc => by simp [t5 c hc]) (fun c hc => by simp [procList] at hc; simp [s5 c hc])).2
+  simp only [wfForest, wfSibs, merge, Bool.and_eq_true, List.all_eq_true]
+  exact ⟨⟨⟨⟨c1, fun c hc => hkeys c hc⟩, c2⟩, c3⟩, hfi.ok⟩
 
 example : wfForest exS exT = true ∧ wfForest exS exSrc = true ∧ beqL (merge exS {} exT exSrc) exT = false ∧
     wfForest exS (merge exS {} exT exSrc) = true := by decide
